@@ -159,11 +159,37 @@ func c18Dur(r *Rng) int64 {
 	}
 }
 
-var c18Names = []string{"h", "requests", "a.b", "a-b", "x.1-2", "", "-", ".", "é", "\xff\xfe", "lat.infinity-", "n.-infinity-0.000000", "long-name-0123456789.with.dots"}
+// Names are arbitrary byte strings ("all names" in the property's quantifier; the statsd
+// reporter applies no sanitizer): besides ordinary names the alphabet holds every character
+// that is significant to something the name passes through or sits next to - printf verbs and
+// flags ('%', digits, '[', ']', '*', '!', '(' ...), the separators of the stat name itself
+// ('.', '-'), the statsd wire format (':', '|', '@', '#', ','), quoting/escaping characters,
+// control bytes and invalid UTF-8.
+var c18Names = []string{"h", "requests", "a.b", "a-b", "x.1-2", "", "-", ".", "é", "\xff\xfe", "lat.infinity-", "n.-infinity-0.000000", "long-name-0123456789.with.dots",
+	"disk.%used", "cpu_%", "rpc.100%done", "%", "%%", "%s", "%s.%s-%s", "%d", "%v%v%v", "%[1]s", "%[3]*.[2]*[1]f", "%!s(MISSING)", "%-5s|", "%.2f", "100%", "a%20b", "%!", "%x-%q",
+	"a:1|c", "n|@0.5", "#tag:v", "a,b=c", "a b", "tab\there", "nl\nx", "nul\x00x", "\\", "{name}", "${name}", "$1", "`x`", "'q'", "\"q\"", "*", "(x)", "[0]", "a/b", "~", "^$", "+Inf", "NaN"}
+
+const c18Alphabet = "%%%sdvfqxT[]*!().-+ #0123456789:|@,=\\/{}$`'\"<>&;?^~_aZ\x00\t\n\r\x7f\x80\xc3\xa9\xff"
 
 func c18Name(r *Rng) B {
-	if r.Chance(70) {
+	switch x := r.Intn(100); {
+	case x < 55:
 		return B(c18Names[r.Intn(len(c18Names))])
+	case x < 85:
+		n := r.Range(1, 10)
+		b := make([]byte, n)
+		for i := range b {
+			b[i] = c18Alphabet[r.Intn(len(c18Alphabet))]
+		}
+		return B(b)
+	case x < 90:
+		// arbitrary bytes
+		n := r.Range(1, 6)
+		b := make([]byte, n)
+		for i := range b {
+			b[i] = byte(r.Intn(256))
+		}
+		return B(b)
 	}
 	return B(r.Str())
 }
